@@ -27,6 +27,10 @@ C_FUNCS = [
     ("trees.c", "check_quantiles"),
     ("trees.c", "check_node_bin_map"),
     ("trees.c", "check_coalescence_rate_time_windows"),
+    # per-node accessors: the id is checked before any array is indexed; walks up parent[] stay inside the arrays
+    ("trees.c", "tsk_tree_get_parent"), ("trees.c", "tsk_tree_get_branch_length_unsafe"), ("trees.c", "tsk_tree_get_branch_length"),
+    ("trees.c", "tsk_tree_get_depth_unsafe"), ("trees.c", "tsk_tree_get_depth"), ("trees.c", "tsk_tree_is_descendant"),
+    ("trees.c", "tsk_tree_get_mrca"), ("trees.c", "tsk_tree_get_num_tracked_samples"),
     ("trees.c", "tsk_tree_seek"),
     ("trees.c", "tsk_tree_seek_index"),
     ("tables.c", "tsk_table_collection_check_tree_integrity"),
@@ -41,6 +45,8 @@ UNVERIFIED = ["python/_tskitmodule.c (CPython API; exercised only by the bounded
               "ancestor_mapper_add_ancestry (assumed contract)", "allocation-failure paths beyond NULL checks"]
 LEMMAS = ["lemmas.induction:psum_monotone"]
 ASSUMPTIONS = [
+    "tree accessors: the parent array holds node ids or NULL (maintained by the edit functions, C01) and the parent "
+    "relation is acyclic with depth below num_nodes (ghost depth function; the bound is the pigeonhole fact, an axiom)",
     "monotonicity of psum is stated as an axiom in preconditions and proved from the recurrence by induction in "
     "lemmas/induction.py (induction principle over the naturals trusted)",
     "prefix sums of sample_set_sizes are given by a ghost function psum with psum(num_sets) <= length of the "
